@@ -164,7 +164,12 @@ pub fn generate(seed: u64, w: &World, with_big: bool, with_stalls: bool) -> Valu
     let usable: Vec<&Fixture> = w.fixtures.iter().filter(|f| !f.big || (with_big && seed % 8 == 0) || seed % 64 == 0).collect();
     let fx = *rng.pick(&usable);
     // what the endpoint has to say
-    let served = if rng.chance(1, 40) {
+    let served = if rng.chance(1, 30) {
+        // a JSON body whose length sits on or next to a typical buffer boundary, optionally with a
+        // multi-byte character straddling that boundary
+        let b = *rng.pick(&[4096usize, 8192, 16384, 32768, 65536]);
+        json!({"kind": "sized", "boundary": b, "delta": rng.range(0, 2) as i64 - 1, "multibyte": rng.chance(1, 2)})
+    } else if rng.chance(1, 40) {
         json!({"kind": "deep"})
     } else if !w.json_files.is_empty() && rng.chance(1, 25) {
         // a real-world introspection result from the repository's fixtures, served byte for byte
@@ -332,6 +337,23 @@ pub fn body_bytes(spec: &Value, served_json: &dyn Fn(&Value) -> Vec<u8>) -> Vec<
         "schema" => served_json(spec),
         "json" => spec["text"].as_str().unwrap_or("null").as_bytes().to_vec(),
         "file" => served_json(spec),
+        "sized" => {
+            let boundary = spec["boundary"].as_u64().unwrap_or(8192) as usize;
+            let total = (boundary as i64 + spec["delta"].as_i64().unwrap_or(0)) as usize;
+            // {"p":"<filler>"} has 8 bytes of framing
+            let mut filler = vec![b'a'; total.saturating_sub(8)];
+            if spec["multibyte"].as_bool().unwrap_or(false) && filler.len() > 8 {
+                // a 3-byte character whose bytes lie on both sides of the boundary
+                let at = (boundary.saturating_sub(6 + 1)).min(filler.len() - 3);
+                filler[at] = 0xE2;
+                filler[at + 1] = 0x82;
+                filler[at + 2] = 0xAC;
+            }
+            let mut v = b"{\"p\":\"".to_vec();
+            v.extend_from_slice(&filler);
+            v.extend_from_slice(b"\"}");
+            v
+        }
         // valid JSON nested 100 levels deep (well inside what the shipped tool accepts)
         "deep" => {
             let mut s = String::new();
